@@ -18,9 +18,18 @@ type RecordingStore struct {
 	InBlockOp bool
 	Applies   int
 	Reverts   int
+
+	// optional hooks, called (under the manager's lock, like every store
+	// access) before the call is passed on
+	OnBestIndex  func(height uint64)
+	OnBlock      func(id types.BlockID)
+	OnPruneBlock func(id types.BlockID)
 }
 
 func (s *RecordingStore) BestIndex(height uint64) (types.ChainIndex, bool) {
+	if s.OnBestIndex != nil {
+		s.OnBestIndex(height)
+	}
 	return s.Inner.BestIndex(height)
 }
 func (s *RecordingStore) SupplementTipTransaction(txn types.Transaction) consensus.V1TransactionSupplement {
@@ -30,6 +39,9 @@ func (s *RecordingStore) SupplementTipBlock(b types.Block) consensus.V1BlockSupp
 	return s.Inner.SupplementTipBlock(b)
 }
 func (s *RecordingStore) Block(id types.BlockID) (types.Block, *consensus.V1BlockSupplement, bool) {
+	if s.OnBlock != nil {
+		s.OnBlock(id)
+	}
 	return s.Inner.Block(id)
 }
 func (s *RecordingStore) Header(id types.BlockID) (types.BlockHeader, bool) {
@@ -38,7 +50,12 @@ func (s *RecordingStore) Header(id types.BlockID) (types.BlockHeader, bool) {
 func (s *RecordingStore) AddBlock(b types.Block, bs *consensus.V1BlockSupplement) {
 	s.Inner.AddBlock(b, bs)
 }
-func (s *RecordingStore) PruneBlock(id types.BlockID)                    { s.Inner.PruneBlock(id) }
+func (s *RecordingStore) PruneBlock(id types.BlockID) {
+	if s.OnPruneBlock != nil {
+		s.OnPruneBlock(id)
+	}
+	s.Inner.PruneBlock(id)
+}
 func (s *RecordingStore) State(id types.BlockID) (consensus.State, bool) { return s.Inner.State(id) }
 func (s *RecordingStore) AddState(cs consensus.State)                    { s.Inner.AddState(cs) }
 func (s *RecordingStore) AncestorTimestamp(id types.BlockID) (time.Time, bool) {
